@@ -143,6 +143,42 @@ fn clamp_counters(p: &Pos) -> Pos {
     q
 }
 
+/// A long burst (hundreds of lines, several KiB) of handshake commands, blank, unknown and
+/// undecodable lines, delivered in one read or in large blocks: a session replayed from a
+/// file, or input queued while the engine was busy. Exercises whatever buffering the read
+/// loop does (a command straddling a block boundary) and whatever it accumulates over a
+/// long session.
+pub fn gen_bulk_script(rng: &mut Rng) -> Scenario {
+    let n = rng.range(300, 1500) as usize;
+    let mut lines: Vec<String> = Vec::with_capacity(n + 1);
+    let bad_rate = *rng.pick(&[0u64, 0, 10, 30, 100]);
+    for _ in 0..n {
+        let body = match rng.below(12) {
+            0 => "uci".to_string(),
+            1..=5 => "isready".to_string(),
+            6 => String::new(),
+            7 => "ucinewgame".to_string(),
+            8 | 9 => rng.pick(UNKNOWN_LINES).to_string(),
+            10 => "x".repeat(rng.range(1, 40) as usize),
+            _ => "position startpos".to_string(),
+        };
+        let body = if rng.below(1000) < bad_rate { format!("setoption name Path value /home/J{}rg/tb", BAD) } else { body };
+        let eol = if rng.chance(1, 10) { "\r\n" } else { "\n" };
+        lines.push(format!("{}{}", body, eol));
+    }
+    if rng.chance(1, 2) {
+        lines.push("quit\n".to_string());
+    }
+    Scenario {
+        lines,
+        cut: None,
+        chunking: *rng.pick(&[1usize, 1, 4096, 8192, 1000, 65536, 512]),
+        read_error_before_line: None,
+        eintr_every: 0,
+        key_seed: rng.next_u64(),
+    }
+}
+
 pub fn gen_script(rng: &mut Rng) -> Scenario {
     let heavy = rng.chance(1, 3);
     let n = rng.range(1, if heavy { 7 } else { 10 }) as usize;
@@ -535,12 +571,64 @@ fn script_shape(sc: &Scenario) -> u64 {
     hash_str(&kinds.join(","))
 }
 
+/// One bulk script: the whole stream, and a few cuts (line boundaries and mid-line).
+fn run_bulk(rng: &mut Rng, i: u64, seed: u64) -> SimResult {
+    let mut res = SimResult::default();
+    let base = gen_bulk_script(rng);
+    let total = base.all_bytes().len();
+    let mut log_hash = crate::rng::FNV_INIT;
+    let mut runs = vec![base.clone()];
+    for _ in 0..4 {
+        let c = rng.usize_below(total + 1);
+        if cut_in_scope(&base, c) {
+            let mut s = base.clone();
+            s.cut = Some(c);
+            s.chunking = *rng.pick(&[1usize, 4096, 1000, 8192]);
+            runs.push(s);
+        }
+    }
+    {
+        let mut s = base.clone();
+        s.eintr_every = rng.range(2, 9) as usize;
+        s.chunking = *rng.pick(&[100usize, 1000, 4096]);
+        runs.push(s);
+    }
+    res.probes.add("bulk_scripts", 1);
+    res.probes.add("bulk_script_bytes", total as u64);
+    for sc in &runs {
+        let r = run_scenario(sc, false);
+        res.evaluations += 1;
+        res.sim_time_ns += r.sim_ns;
+        log_hash = crate::rng::fnv1a(log_hash, &r.log_hash.to_le_bytes());
+        res.distinct.push(hash_str(&format!("bulk:{}:{:?}:{}:{}", seed, sc.cut, sc.chunking, sc.eintr_every)));
+        let delivered = sc.delivered_bytes();
+        let dl = delivered_lines(&delivered);
+        let undec = dl.iter().filter(|l| l.is_none()).count() as u64;
+        res.faults.add("undecodable_line", undec);
+        res.probes.max("max_undecodable_lines_in_one_session", undec);
+        if !expectation(&dl).quit_seen {
+            res.faults.add("eof_without_quit", 1);
+        }
+        if sc.eintr_every > 0 {
+            res.faults.add("read_interrupted_eintr", r.faults.read_error);
+        }
+        if let Some((class, detail)) = judge(sc, &r) {
+            res.violations.push(violation(sc, &r, class, detail, i, seed));
+        }
+    }
+    res.log_hash = log_hash;
+    res
+}
+
 pub fn run(ctx: &Ctx) -> i32 {
     let scripts = ctx.n(96, 2400);
     let real_bin = realbin::real_binary_path();
     let rep = run_batch(scripts, ctx.workers, |i| {
         let seed = derive(ctx.seed, "C16", i);
         let mut rng = Rng::new(seed);
+        if i % 8 == 5 {
+            return run_bulk(&mut rng, i, seed);
+        }
         let base = gen_script(&mut rng);
         let total = base.all_bytes().len();
         let mut res = SimResult::default();
@@ -692,7 +780,7 @@ pub fn run(ctx: &Ctx) -> i32 {
     });
     let ev = Evidence {
         level: "fault_enumeration",
-        rule: "Seeded UCI scripts (uci/isready/ucinewgame/position/go depth<=2/blank/unknown/undecodable lines, CRLF and padding, quit present/absent/not last); for each script every byte offset 0..=len is a crash point 'input ends here' (truncated position/go commands are outside the property and skipped; scripts that run searches enumerate all line boundaries +-1 and a seeded third of the other offsets), plus one transient read error, plus two runs in which every 1st-3rd read() is first interrupted by a signal (EINTR: must be invisible, judged like an undisturbed run). A case is (script shape, cut, read-error position); all are non-trivial (each runs one simulated engine process to termination).".into(),
+        rule: "Seeded UCI scripts (uci/isready/ucinewgame/position/go depth<=2/blank/unknown/undecodable lines, CRLF and padding, quit present/absent/not last); for each script every byte offset 0..=len is a crash point 'input ends here' (truncated position/go commands are outside the property and skipped; scripts that run searches enumerate all line boundaries +-1 and a seeded third of the other offsets), plus one transient read error, plus two runs in which every 1st-3rd read() is first interrupted by a signal (EINTR: must be invisible, judged like an undisturbed run). One script in eight is a bulk script: 300-1500 handshake/blank/unknown/undecodable lines (several KiB) delivered in one read or in 512 B-64 KiB blocks, run whole, at four seeded cuts and with EINTR. A case is (script shape, cut, read-error position); all are non-trivial (each runs one simulated engine process to termination).".into(),
         extra: {
             let mut m = serde_json::Map::new();
             m.insert("real_binary_available".into(), json!(real_bin.is_some()));
